@@ -208,6 +208,10 @@ fn gen_knobs(r: &mut Rng, scenario: &str) -> Knobs {
         "deadline" => {
             k.general_timeout_ms = *r.pick(&[50u64, 100, 200]);
         }
+        "lease" | "linread" => {
+            // make the requested policies effective so the reads are really strong reads
+            k.allow_override = true;
+        }
         _ => {}
     }
     k
